@@ -263,7 +263,7 @@ def run_scenario(sc):
                 inu, ina = (kr, nr) if switched else (kt, nt)
                 n = o["n"] if k == "T" else None
                 if k == "F":
-                    fft = [f for f in (8, 16, 64, 128) if f > mem][0] * (1 + rng.randint(2))
+                    fft = int([4, 8, 16, 64, 128][rng.randint(5)])       # also shorter than the response (aliasing)
                     sel = _rand_sel(rng, fft, o["sk"])
                     cnt = fft if sel is None else len(np.arange(fft)[sel])
                     nb = o["n"]
